@@ -817,6 +817,8 @@ func (vm *vm) handleThrow(arg interface{}) *Exception {
 		vm.stash = tf.stash
 		vm.privEnv = tf.privEnv
 		_ = vm.restoreStacks(tf.iterLen, tf.refLen)
+		// restoreStacks runs iterator return() methods, which push try frames and may reallocate vm.tryStack
+		tf = &vm.tryStack[len(vm.tryStack)-1]
 
 		if tf.catchPos == tryPanicMarker {
 			break
